@@ -10,10 +10,10 @@
    local scatters with the leading eigenvalues in decreasing order, scaled per embedding_type.
    NOT mechanised: completeness of the generalised spectrum (that the selected eigenvectors are the
    leading ones) -- per-instance certificate. *)
-From Coq Require Import List Reals.
+From Coq Require Import List Reals ZArith.
 From ML Require Import Ops Vec VecR MatR LinAlg Mahalanobis MahalanobisR C09Proof CovProof.
 From ML Require Import PinsC09.
-From ML Require Import NPNum C09Src.
+From ML Require Import NPNum C09Src C09Chunks.
 From MLgen Require Import Src_rca.
 Import ListNotations.
 Open Scope R_scope.
@@ -55,3 +55,29 @@ Theorem C09_source : C09_source_stmt.
 Proof. exact rca_reduced_whitening. Qed.
 Print Assumptions C09_source.
 Definition C09_source_skeleton := rca_skeleton_ok.
+
+(* the translated source, within-chunk covariance: _chunk_mean_centering (mask of the chunked points, one centring pass per chunk
+   id in range(chunks.max() + 1)) followed by np.cov(., rowvar=0, bias=1), as they read on this run.  For every data matrix, every
+   chunk vector with entries in {-1} u [0, max] (at least one of them a chunk id) and every direction x, the quadratic form of the
+   translated inner_cov along x is the mean over the chunked points of the squared deviation of x . x_i from the mean of x . x_j over
+   the point's own chunk: the documented C = 1/N sum_j sum_i (x_ji - m_j)(x_ji - m_j)^T.  (Each chunk is centred exactly once, by its
+   own mean - chunk ids are distinct in range(n_chunks) - and np.cov's own centring is a no-op since the centred rows sum to zero.) *)
+Definition C09_rca_within_chunk_stmt : Prop :=
+  forall d (X : Rm) (chunks : list Z) (x : Rv),
+    Forall (wfvR d) X -> length chunks = length X -> wfvR d x -> Forall (fun c => (-1 <= c)%Z) chunks ->
+    let mask := nn_ne_zs chunks (-1)%Z in
+    let labels := nn_mask mask chunks in
+    let z := mvmulR (nn_mask mask X) x in
+    labels <> [] ->
+    quadformR (@rca_inner_cov ROps X chunks) x =
+    rsum (map (fun p => p ^ 2) (dev (chunk_mean labels z) labels z)) / INR (length labels).
+
+Theorem C09_rca_within_chunk : C09_rca_within_chunk_stmt.
+Proof. exact rca_inner_cov_is_within_chunk. Qed.
+Print Assumptions C09_rca_within_chunk.
+
+(* non-vacuity: four points in the plane, two chunks and one unchunked point *)
+Example C09_rca_within_chunk_nonvacuous :
+  Forall (wfvR 2) [[0; 0]; [2; 0]; [5; 5]; [1; 3]; [1; 5]] /\ Forall (fun c => (-1 <= c)%Z) [0; 0; -1; 1; 1]%Z /\
+  nn_mask (nn_ne_zs [0; 0; -1; 1; 1]%Z (-1)%Z) [0; 0; -1; 1; 1]%Z = [0; 0; 1; 1]%Z.
+Proof. split; [repeat constructor | split; [repeat constructor; discriminate | reflexivity]]. Qed.
